@@ -20,11 +20,14 @@ Definition is_nil {A} (l : list A) : bool := match l with [] => true | _ => fals
 Definition errored (s : st) : bool :=
   negb (is_nil (ebuf s)) || negb (is_nil (sbuf s)) || existsb is_werr (ws s).
 
+Definition is_saveblk (a : act) : bool := match a with ASaveBlk => true | _ => false end.
+Definition is_saveidx (a : act) : bool := match a with ASaveIdx => true | _ => false end.
+(* once past SaveBlock / SaveBlockIndex the object is in the store and the write did not fail *)
 Definition wdata_ok (sto : list obj) (wk : worker) : Prop :=
   match w_st wk with
   | WBody pc cur =>
-      (~ In ASaveBlk pc -> b_fail cur <> FBlk /\ In (OBlk (b_off cur)) sto) /\
-      (~ In ASaveIdx pc -> b_fail cur <> FIdx /\ In (OIdx (b_off cur)) sto)
+      (existsb is_saveblk pc = false -> b_fail cur <> FBlk /\ In (OBlk (b_off cur)) sto) /\
+      (existsb is_saveidx pc = false -> b_fail cur <> FIdx /\ In (OIdx (b_off cur)) sto)
   | _ => True
   end.
 
@@ -373,8 +376,11 @@ Section Data.
     simpl; auto;
     try solve [ intros ?; discriminate
               | left; reflexivity
-              | unfold wdata_ok; simpl; intuition
+              | unfold wdata_ok; simpl; exact Logic.I
               | intros; simpl; auto ].
+  Ltac wdnew :=
+    solve [ unfold wdata_ok; simpl; split; intros Hx; try discriminate Hx; split;
+            first [ assumption | congruence | simpl; auto ] ].
 
   Lemma InvD_worker k s s' l : InvC s -> InvD s -> step_worker c k s = Some (s', l) -> InvD s'.
   Proof.
@@ -394,7 +400,7 @@ Section Data.
         assert (Hb : exists bd, c_body c = bd /\ (bd = bodyA \/ bd = bodyB)) by eauto.
         destruct Hb as (bd & Ebd & Hbd). rewrite Ebd.
         apply (InvD_wupd s k _ _ r (store s) (rc s) (ab s) (mutex s) (wg s) (ebuf s) I D Hk); dwfin.
-        * destruct Hbd as [-> | ->]; unfold wdata_ok; simpl; intuition.
+        * destruct Hbd as [-> | ->]; unfold wdata_ok; simpl; split; intros; discriminate.
         * intros _ _ _. rewrite Eb.
           destruct Hbd as [-> | ->]; simpl; (split; [|split; [|split]]);
             try reflexivity; try (intros ?; discriminate); try (right; discriminate); f_equal; lia.
@@ -402,60 +408,57 @@ Section Data.
       destruct pc as [|a pc]; [discriminate|]. destruct Hwf as [Hsuf _].
       pose proof (ic_cs c s I k _ Hk) as Hcs. pose proof (ic_mid c s I k _ Hk) as Hmid.
       unfold in_cs, mid_ok, mid_ok_v, in_cs in *; simpl in *.
-      unfold wdata_ok in Dwk; simpl in Dwk.
       destruct (body_positions _ a pc Hbody Hsuf) as
         [(-> & f & g & Hfg & ->)|[(-> & f & g & Hfg & ->)|[(-> & f & g & Hfg & ->)|[(f & g & Hfg & -> & ->)|
-         [(f & g & Hfg & -> & ->)|[(g & -> & ->)|[(g & -> & ->)|(-> & ->)]]]]]]]; unfold cs_acts in *.
-      + (* SaveBlk *)
-        destruct f, g; try congruence;
-        (destruct (b_fail cur) eqn:Ef; inversion H; subst; clear H;
+         [(f & g & Hfg & -> & ->)|[(g & -> & ->)|[(g & -> & ->)|(-> & ->)]]]]]]]; unfold cs_acts in *;
+        try (destruct f, g; try congruence);
+        unfold wdata_ok in Dwk; simpl in Dwk; destruct Dwk as [Dw1 Dw2];
+        try (destruct (Dw1 eq_refl) as [Df1 Do1]); try (destruct (Dw2 eq_refl) as [Df2 Do2]); clear Dw1 Dw2.
+      (* SaveBlk (2 orders) *)
+      1,2: (destruct (b_fail cur) eqn:Ef; inversion H; subst; clear H;
          (apply (InvD_wupd s k _ _ (buf s) _ (rc s) (ab s) (mutex s) (wg s) (ebuf s) I D Hk); dwfin;
-          try (unfold wdata_ok; simpl; rewrite Ef; intuition congruence);
+          try wdnew;
           try (intros _ _ _; simpl; split; [|split; [|split]]; auto; intros ?; discriminate))).
-      + (* SaveIdx *)
-        destruct f, g; try congruence;
-        (destruct (b_fail cur) eqn:Ef; inversion H; subst; clear H;
+      (* SaveIdx (2 orders) *)
+      1,2: (destruct (b_fail cur) eqn:Ef; inversion H; subst; clear H;
          (apply (InvD_wupd s k _ _ (buf s) _ (rc s) (ab s) (mutex s) (wg s) (ebuf s) I D Hk); dwfin;
-          try (unfold wdata_ok; simpl; rewrite Ef; intuition congruence);
+          try wdnew;
           try (intros _ _ _; simpl; split; [|split; [|split]]; auto; intros ?; discriminate))).
-      + (* Lock *)
-        destruct (mutex s) eqn:Em; [discriminate|]. inversion H; subst; clear H.
-        destruct f, g; try congruence;
+      (* Lock *)
+      1,2: (destruct (mutex s) eqn:Em; [discriminate|]; inversion H; subst; clear H;
         (apply (InvD_wupd s k _ _ (buf s) (store s) (rc s) (ab s) (Some k) (wg s) (ebuf s) I D Hk); dwfin;
-         try (intros _ _ _; simpl; split; [|split; [|split]]; auto; intros ?; discriminate)).
-      + (* Read f *)
-        destruct f, g; try congruence; inversion H; subst; clear H;
+         try wdnew;
+         try (intros _ _ _; simpl; split; [|split; [|split]]; auto; intros ?; discriminate))).
+      (* Read f, first *)
+      1,2: (inversion H; subst; clear H;
         (apply (InvD_wupd s k _ _ (buf s) (store s) (rc s) (ab s) (mutex s) (wg s) (ebuf s) I D Hk); dwfin;
-         try (intros _ _ _; simpl; split; [|split; [|split]]; auto; intros ?; discriminate)).
-      + (* Write f, first *)
-        specialize (Hmid eq_refl).
-        destruct f, g; try congruence; inversion H; subst; clear H.
-        * apply (InvD_wupd s k _ _ (buf s) (store s) _ (ab s) (mutex s) (wg s) (ebuf s) I D Hk); dwfin.
-          -- symmetry. apply wrap32_idem.
-          -- intros _ _ _. simpl. split; [|split; [|split]]; auto; try (intros ?; discriminate).
-             rewrite <- N.add_assoc, wrap32_add_l. f_equal. lia.
-        * destruct Dwk as [Dw1 Dw2].
-          destruct Dw1 as [Hf1 Ho1]; [simpl; intuition discriminate|].
-          destruct Dw2 as [Hf2 Ho2]; [simpl; intuition discriminate|].
-          apply (InvD_wupd s k _ _ (buf s) (store s) (rc s) _ (mutex s) (wg s) (ebuf s) I D Hk); dwfin.
-          -- right. exists cur. split; [reflexivity|]. split; [apply fail_none; auto|auto].
-          -- intros _ _ _. simpl. split; [|split; [|split]]; auto; try (intros ?; discriminate).
-             rewrite <- app_assoc. reflexivity.
-      + (* Read g *)
+         try wdnew;
+         try (intros _ _ _; simpl; split; [|split; [|split]]; auto; intros ?; discriminate))).
+      (* Write f, first: f = FRc *)
+      + specialize (Hmid eq_refl). inversion H; subst; clear H.
+        apply (InvD_wupd s k _ _ (buf s) (store s) _ (ab s) (mutex s) (wg s) (ebuf s) I D Hk); dwfin; try wdnew.
+        * symmetry. apply wrap32_idem.
+        * intros _ _ _. simpl. split; [|split; [|split]]; auto; try (intros ?; discriminate).
+          rewrite <- N.add_assoc, wrap32_add_l. f_equal. lia.
+      + (* f = FAb *)
+        specialize (Hmid eq_refl). inversion H; subst; clear H.
+        apply (InvD_wupd s k _ _ (buf s) (store s) (rc s) _ (mutex s) (wg s) (ebuf s) I D Hk); dwfin; try wdnew.
+        * right. exists cur. split; [reflexivity|]. split; [apply fail_none; auto|auto].
+        * intros _ _ _. simpl. split; [|split; [|split]]; auto; try (intros ?; discriminate).
+          rewrite <- app_assoc. reflexivity.
+      + (* Read g, second *)
         destruct g; inversion H; subst; clear H;
         (apply (InvD_wupd s k _ _ (buf s) (store s) (rc s) (ab s) (mutex s) (wg s) (ebuf s) I D Hk); dwfin;
+         try wdnew;
          try (intros _ _ _; simpl; split; [|split; [|split]]; auto; intros ?; discriminate)).
       + (* Write g, second *)
         specialize (Hmid eq_refl).
         destruct g; inversion H; subst; clear H.
-        * apply (InvD_wupd s k _ _ (buf s) (store s) _ (ab s) (mutex s) (wg s) (ebuf s) I D Hk); dwfin.
+        * apply (InvD_wupd s k _ _ (buf s) (store s) _ (ab s) (mutex s) (wg s) (ebuf s) I D Hk); dwfin; try wdnew.
           -- symmetry. apply wrap32_idem.
           -- intros _ _ _. simpl. split; [|split; [|split]]; auto; try (intros ?; discriminate).
              rewrite <- N.add_assoc, wrap32_add_l. f_equal. lia.
-        * destruct Dwk as [Dw1 Dw2].
-          destruct Dw1 as [Hf1 Ho1]; [simpl; intuition discriminate|].
-          destruct Dw2 as [Hf2 Ho2]; [simpl; intuition discriminate|].
-          apply (InvD_wupd s k _ _ (buf s) (store s) (rc s) _ (mutex s) (wg s) (ebuf s) I D Hk); dwfin.
+        * apply (InvD_wupd s k _ _ (buf s) (store s) (rc s) _ (mutex s) (wg s) (ebuf s) I D Hk); dwfin; try wdnew.
           -- right. exists cur. split; [reflexivity|]. split; [apply fail_none; auto|auto].
           -- intros _ _ _. simpl. split; [|split; [|split]]; auto; try (intros ?; discriminate).
              rewrite <- app_assoc. reflexivity.
@@ -471,7 +474,7 @@ Section Data.
         apply (InvD_wupd s k _ _ (buf s) (store s) (rc s) (ab s) (mutex s) (wg s) _ I D Hk); dwfin.
         * right. destruct (ebuf s); discriminate.
         * intros _. destruct (ebuf s); discriminate.
-        * intros _ E. exfalso. destruct (ebuf s); discriminate.
+        * intros _ E. exfalso. apply (f_equal (@List.length _)) in E. rewrite app_length in E. simpl in E. lia.
     - (* WExit *)
       destruct (wg s).
       + inversion H; subst; clear H. destruct D. constructor; simpl; auto.
